@@ -16,7 +16,7 @@ import (
 //   strings -> def <Name> : String
 // Durations are ints in nanoseconds.
 func init() {
-	register("constants", func(x *X) {
+	register("0_constants", func(x *X) {
 		files := x.Pkg("internal/constants")
 		var fs []*ast.File
 		names := []string{}
